@@ -263,6 +263,22 @@ register(
 )
 
 
+import c19  # noqa: E402
+
+register(
+    "C19",
+    [c19.stage],
+    "for each previous state {absent, same contents, different contents} x entry point {Rust compile_clvm child, real Python extension chialisp.compile_clvm}: an uninjected strace gives the window of system calls from the first call naming the output directory to exit; "
+    "CRASH ENUMERATION: the run is repeated once per call of the window with SIGKILL delivered immediately before that call (every point at which the durable state can differ), then the output path must hold exactly the old or the complete new contents; "
+    "FAULT ENUMERATION: ENOSPC/EACCES (thorough: +EIO, EXDEV) injected at each call of the window; same-contents state: the call must still report success when every write-side call fails; the trace is audited (output path never opened for writing/truncated/unlinked, only renamed onto from a completely written sibling); "
+    "SCHEDULES: 2 and 8 (thorough 1,2,4,8) concurrent writer processes with injected delays around write/rename plus polling readers. Distinct non-trivial = distinct (entry, state, injected signal/errno, syscall occurrence) points at which the injection demonstrably hit",
+    level="fault_enumeration",
+    needs=("bins", "py"),
+    min_nontrivial=40,
+    assumptions=["POSIX rename semantics of the sandbox file system; durability across power loss (fsync) is not part of the property", "run as root: read-only states are produced by injected EACCES, not by permission bits"],
+)
+
+
 def evidence(pid, plan, merged, tier, seed, wall, nviol, known_hits):
     c = merged["counters"]
     cov = {
